@@ -46,6 +46,8 @@ DevLineCommentAtEofRejected    == "DevLineCommentAtEofRejected"     \* "-- c" cl
 DevStarSlashUnitInCode         == "DevStarSlashUnitInCode"          \* outside comments "*/" is consumed as a unit, so "*/*" opens no comment
 DevBlockCommentNewlinesBlanked == "DevBlockCommentNewlinesBlanked"  \* new-lines inside /* */ are replaced by spaces (later lines are renumbered)
 DevMultiWordKeywordSingleSpace == "DevMultiWordKeywordSingleSpace"  \* words of some keywords must be separated by exactly one space
+DevClassFieldRefNoSpace        == "DevClassFieldRefNoSpace"         \* CLASS . &field (X.681 14.1) only without white-space around the "."
+DevReservedWordNeedsSpace      == "DevReservedWordNeedsSpace"       \* END SEQUENCE ENUMERATED WITH are reserved only before white-space
 ScannerDevs == {DevCommentMarkerInString, DevLineCommentAtEofRejected, DevStarSlashUnitInCode, DevBlockCommentNewlinesBlanked}
 
 ------------------------------------------------------------------------------
@@ -373,16 +375,31 @@ OtherWordPairs == {<<"SEQUENCE", "OF">>, <<"SET", "OF">>, <<"AUTOMATIC", "TAGS">
 InAffectedKeyword(a, b) == <<a, b>> \in AffectedPairs
 InMultiWord(a, b) == <<a, b>> \in AffectedPairs \cup OtherWordPairs
 
+\* X.681 14.1: ObjectClassFieldType ::= DefinedObjectClass "." FieldName -- three items; the implementation
+\* wants them glued.  Boundary j (between items j and j+1) lies inside such a reference:
+InClassFieldRef(items, j) ==
+  \/ items[j + 1].t = "." /\ j + 2 <= Len(items) /\ SubSeq(items[j + 2].t, 1, 1) = "&"
+  \/ items[j].t = "." /\ SubSeq(items[j + 1].t, 1, 1) = "&"
+\* reserved words the implementation recognises as such only when white-space (or the end) follows
+SpaceHungryWords == {"END", "SEQUENCE", "ENUMERATED", "WITH"}
+LayoutDevs == {DevMultiWordKeywordSingleSpace, DevClassFieldRefNoSpace, DevReservedWordNeedsSpace,
+               DevCommentMarkerInString, DevStarSlashUnitInCode}
+
 \* The token sequence as the implementation sees it under the deviations S: the items of the text
-\* blanked with the scanner deviations of S and, with DevMultiWordKeywordSingleSpace, at every boundary
-\* inside an affected keyword whether the two words are glued by exactly one space.
+\* blanked with the scanner deviations of S and, per layout deviation of S, at every boundary of its
+\* input class what the implementation's rule looks at (glued by exactly one space / abutting /
+\* followed by white-space).  Two texts with the same items and the same marks are the same to it.
 ImplView(cs, S) ==
   LET b == BlankOf(cs, S \cap ScannerDevs)
       items == XLexItems(b)
-      glue == [j \in 1..(IF Len(items) = 0 THEN 0 ELSE Len(items) - 1) |->
-                 IF DevMultiWordKeywordSingleSpace \in S /\ InAffectedKeyword(items[j].t, items[j + 1].t)
-                 THEN (IF items[j + 1].a = items[j].z + 2 /\ b[items[j].z + 1] = SP THEN "glued" ELSE "split")
-                 ELSE "-"]
-  IN [toks |-> Toks(items), glue |-> glue]
+      gap(j) == items[j + 1].a - items[j].z - 1
+      mark == [j \in 1..(IF Len(items) = 0 THEN 0 ELSE Len(items) - 1) |->
+                 (IF DevMultiWordKeywordSingleSpace \in S /\ InAffectedKeyword(items[j].t, items[j + 1].t)
+                  THEN (IF gap(j) = 1 /\ b[items[j].z + 1] = SP THEN "glued" ELSE "split") ELSE "-")
+                 \o (IF DevClassFieldRefNoSpace \in S /\ InClassFieldRef(items, j)
+                     THEN (IF gap(j) = 0 THEN "abut" ELSE "apart") ELSE "-")
+                 \o (IF DevReservedWordNeedsSpace \in S /\ items[j].t \in SpaceHungryWords
+                     THEN (IF gap(j) > 0 /\ b[items[j].z + 1] \in WhiteSpace THEN "ws" ELSE "nows") ELSE "-")]
+  IN [toks |-> Toks(items), mark |-> mark]
 
 =============================================================================
